@@ -18,6 +18,7 @@ from vkit.world import eliot
 
 ID = "C08"
 LEVEL = "model_checking"
+CASE_TIMEOUT = 1800
 RULE = (
     "programs = forests <= 3 nodes (<= 6 primary messages) x <= 1 attribute deviation; destination "
     "sets = 6 arrangements of faulty(F)/healthy(H) callables (F, FH, HF, FF, FHF, FFH) x global fields "
@@ -55,15 +56,93 @@ def _progs(tier):
     return out
 
 
+THR_HARNESSES = [
+    {"dests": "FH", "fail_for": ["a", "b"]},
+    {"dests": "HF", "fail_for": ["b"]},
+    {"dests": "FF", "fail_for": ["a", "b"]},
+]
+THR_SHARDS = 4
+
+
 def units(tier):
     ps = _progs(tier)
-    return [[i, ds, g] for i in range(len(ps)) for ds in DSETS for g in (0, 1)]
+    out = [[i, ds, g] for i in range(len(ps)) for ds in DSETS for g in (0, 1)]
+    pre = 1 if tier == "quick" else 2
+    out += [["thr", hi, pre, k] for hi in range(len(THR_HARNESSES)) for k in range(THR_SHARDS)]
+    return out
 
 
 def cases(unit, tier):
+    if unit[0] == "thr":
+        yield {"thr": unit[1:]}
+        return
     i, ds, g = unit
     yield {"prog": _progs(tier)[i], "dests": ds, "globals": g, "raises": BOUNDS(tier)["raises"],
            "kinds_later": BOUNDS(tier)["kinds_later"]}
+
+
+def DETERMINISM_REPLAY(case):
+    return "thr" not in case
+
+
+def run_thr(hi, bound, shard):
+    """Two threads log concurrently while a destination fails: every failure must still be
+    reported exactly once (line granularity in eliot/_output.py, all functions)."""
+    from vkit import thr
+    import eliot._output as _output
+
+    h = THR_HARNESSES[hi]
+
+    def setup(s):
+        world.fresh()
+        recs = []
+
+        def mk(kind):
+            got = []
+
+            def dest(m):
+                got.append((m.get("message_type"), m.get("who"), m.get("reason")))
+                if kind == "F" and m.get("message_type") == "t:msg" and m.get("who") in h["fail_for"]:
+                    raise ValueError("fail-" + m["who"])
+
+            recs.append(got)
+            return dest
+
+        eliot.add_destinations(*[mk(c) for c in h["dests"]])
+
+        def body(who):
+            return lambda: eliot.log_message("t:msg", who=who)
+
+        def observe(s):
+            return {"recv": [list(g) for g in recs]}
+
+        return [("A", body("a")), ("B", body("b"))], observe
+
+    viol = []
+    execs = states = transitions = 0
+    nf = h["dests"].count("F")
+    for x in thr.explore(setup, bound, trace_files=[_output.__file__], shard=shard):
+        execs += 1
+        transitions += len(x.choices)
+        states += 1 + len(x.choices)
+        sched = [c[3] for c in x.choices]
+        if x.sched.deadlock:
+            viol.append(("thr:deadlock", {"schedule": sched}))
+        for t in x.sched.threads:
+            if t.exc is not None:
+                viol.append(("thr:thread-raised", {"exc": repr(t.exc)}))
+        for k, got in enumerate(x.obs["recv"]):
+            prim = sorted(w for mt, w, r in got if mt == "t:msg")
+            reps = sorted(r for mt, w, r in got if mt == "eliot:destination_failure")
+            want_reps = sorted("fail-" + w for w in h["fail_for"] for _ in range(nf))
+            if prim != ["a", "b"]:
+                viol.append(("thr:primary-lost-or-duplicated", {"dest": k, "got": prim, "schedule": sched}))
+            elif reps != want_reps:
+                viol.append(("thr:failure-reports-under-concurrency", {"dest": k, "got": reps, "want": want_reps,
+                                                                     "schedule": sched, "preemptions": x.preemptions}))
+        if len(viol) > 3:
+            break
+    return execs, states, transitions, viol
 
 
 STRATEGIES = {
@@ -213,6 +292,14 @@ def compare(case, primary, devs, strategy, dests, npoints):
 
 
 def run_case(case):
+    if "thr" in case:
+        hi, bound, k = case["thr"]
+        try:
+            execs, states, transitions, viol = run_thr(hi, bound, (k, THR_SHARDS))
+        finally:
+            world.fresh()
+        return Result(outcome=[execs], states=states, transitions=transitions, executions=execs,
+                      violations=viol[:3], extra={"thr_schedules": execs})
     viol = []
     # fault-free baseline gives the primary label sequence
     answers, dests, it = execute(case, {})
